@@ -1083,6 +1083,9 @@ class Executor:
 
     # ---- contract application at a call site -------------------------------------------
     def apply_contract(self, path, c: Contract, recv, ca: CallArgs, label: str, node=None) -> list:
+        if getattr(c, "trusted", False):
+            # an ASSUMED contract is being used at a call site: recorded, so that the evidence lists it
+            self.run.used_trusted = getattr(self.run, "used_trusted", set()) | {(c.qualnames or [type(c).__name__])[0]}
         vals = self.bind_params(path, c.params, recv, ca, getattr(c, "defaults", {}), node)
         # coerce to declared types
         for n, t in c.params:
